@@ -99,7 +99,8 @@ def run_job(job, workroot, gxx):
     if not e or rc < 0 or "internal compiler error" in err:
         return {"status": "inconclusive", "why": "g++ crashed (rc=%s)" % rc, "detail": err[-300:]}
     wit_text = compz.read_wit(job["wit"])
-    root = compz.bucket(e, BUCKETS) or compz.keyword_root_cause(err, wit_text, compz.C_KEYWORDS)
+    first3 = " ;; ".join(re.findall(r"(?:fatal )?error: (.*)", err)[:3])
+    root = compz.bucket(e, BUCKETS) or compz.keyword_root_cause(err, wit_text, compz.C_KEYWORDS) or compz.bucket(first3, BUCKETS)
     if not root and job["source"] == "random" and compz.confirmed_temporary_collision(err, wit_text):
         root = "generator-temporary-collision"
     sig = compz.signature(job, "cpp:syntax:", root, named=True) if root else compz.signature(job, "cpp:syntax:", compz.normalise(e))
